@@ -45,7 +45,7 @@ func init() {
 		Level: "exploration",
 		// the classes added later come last, so that the case indices (and per-case PRNGs) of the earlier classes never move
 		Cases: func(tier string) int {
-			return forcedCases + inflightN(tier) + randomN(tier) + startupN(tier) + rejectedN(tier) + retryN(tier) + closetoN(tier)
+			return forcedCases + inflightN(tier) + randomN(tier) + startupN(tier) + rejectedN(tier) + retryN(tier) + closetoN(tier) + ownctxN(tier)
 		},
 		Rule: "forced part: the RunHandlers goroutine is parked right after a handler's Started() channel closed; the goroutine that waited on Started() then calls Stop() and Stopped() (must not panic, Stopped() must be non-nil) and, after the release, Stopped() must close; " +
 			"while still parked, a second Run is issued (must be refused with an error); optionally the Run context is cancelled during the start-up (Run must still return nil); x {handler added before Run, added after Run and started by RunHandlers} x {1..3 handlers} x {scripted, GoChannel subscriber} x repeats. " +
@@ -72,15 +72,23 @@ func init() {
 			"close-timeout part: CloseTimeout 20..50 ms; 1..3 handlers (optionally one of them added after Run and started by RunHandlers), each has handled a message; then {1..3 handler functions are busy with a message - held inside the handler function or inside Publish of the handler's publisher - when {the Run context is cancelled, every handler is stopped, Close is called (1..2 concurrent calls), the subscribers close every subscription, cancel and Close together}; " +
 			"1..2 handlers were added after Run and never started - no RunHandlers call, or one whose Subscribe was refused - optionally after 1..all of the started handlers were stopped - when {Close is called, the Run context is cancelled}} x release {after the close has run into CloseTimeout (quiescence with the CloseTimeout timer counted as a pending timer), 0..2xCloseTimeout after the event} x {scripted, GoChannel} x repeats. " +
 			"Whatever Close returned: once the busy handler functions have returned, Close has returned, the router is closed, Run has returned nil, a second Run is refused, and optionally a further Close call returns. (Run context cancelled with a handler added after Run and never started: clause cancel-not-honoured-with-unstarted-handler when Run never returns.) " +
+			"own-context part: 0..3 handlers are added before Run (they run under Run's context); then 1..2 times {1..2 handlers are added to the running router and started by RunHandlers(ctx)} where ctx is the caller's own and independent of Run's context: " +
+			"{context.Background(), a context that carries values, a cancelable context of the caller's that is never cancelled / cancelled once its handlers have handled a message / cancelled already when RunHandlers is called / cancelled together with the ending, context.WithoutCancel(Run's context)} (a second such call may also use Run's context), " +
+			"0..2 further RunHandlers calls with yet another context (nothing left to start: they return nil and subscribe nothing); every handler started under a live context handles a message; handlers whose context is cancelled end with it (Stop() afterwards must not panic), " +
+			"and as long as another handler runs the router has not closed and Run has not returned (closed-before-last-handler-ended); if they were the last ones alive the router closes itself and Run returns nil. " +
+			"Then {no Stop, Stop of one handler, Stop of one started by RunHandlers, Stop of every handler started by Run - only handlers under a context of the caller's are left}: Stopped() closes, the others handle a new message, the router stays open; " +
+			"optionally one handler function is busy with a message when the ending comes (released at quiescence); ending x {Stop all, cancel of the Run context - which reaches none of the handlers started under the caller's context -, Close, subscriptions closed} x context kind x {scripted, GoChannel} x repeats: " +
+			"the router closes itself, Run returns nil, a second Run is refused, one Subscribe per handler. " +
 			"Oracle: when Running() is observed closed every handler added before Run holds a subscription and a message emitted at that instant is handled; exactly one Subscribe per handler whatever the number of RunHandlers calls; after Started(): Stop() does not panic, Stopped() is non-nil and closes; " +
 			"after stopping a handler, handlers that do not share its publisher still handle new messages; when the last handler ends or the Run context is cancelled Run returns nil (quiescence detector); a second Run returns an error. " +
-			"Non-trivial: forced point reached / in-flight stage reached / program contained RunHandlers repetition, a Stop or a post-Running emission / the start-up event was issued with >= 1 handler still to start (or before Running() closed) / >= 1 call was refused / >= 1 RunHandlers (or Run) call returned an injected start-up error and was retried / >= 1 close ran into CloseTimeout (Close returned an error or the router logged that its own close failed). Distinct = (program, hook fingerprint).",
+			"Non-trivial: forced point reached / in-flight stage reached / program contained RunHandlers repetition, a Stop or a post-Running emission / the start-up event was issued with >= 1 handler still to start (or before Running() closed) / >= 1 call was refused / >= 1 RunHandlers (or Run) call returned an injected start-up error and was retried / >= 1 close ran into CloseTimeout (Close returned an error or the router logged that its own close failed) / >= 1 handler was started by a RunHandlers call whose context is independent of Run's. Distinct = (program, hook fingerprint).",
 		Assumptions: []string{
 			"handlers are not added while the router is shutting down; subscribers honour their context (message.Subscriber contract)",
 			"start-up part: RunHandlers is called with the Run context; after Close / cancel during a start-up nothing is demanded about the handlers that were not started yet (started and torn down, or never started: both accepted)",
 			"rejected-call part: a refused call is one that panics with a value the caller recovers; should AddHandler accept a name that is still registered the case is inconclusive (no model of two handlers under one name), never a violation",
 			"retry part: a start-up fault is a Subscribe / decorator call that returns an error and leaves nothing behind; after a start-up fault inside Run itself nothing is demanded of that Run call, and the handlers it had started already may end with it (both accepted)",
 			"close-timeout part: nothing is demanded of what Close returns, nor of the instant at which Run returns relative to the busy handler functions; the verdict is taken after they have returned, by the quiescence detector with CloseTimeout timers counted as pending timers (no wall-clock bound)",
+			"own-context part: subscribers honour their context, so handlers started under a context that is cancelled are expected to end with it; should one not end, should its Started() not close, or should RunHandlers refuse a cancelled context with an error, the case is inconclusive, never a violation (the statement does not speak about the RunHandlers context)",
 			"data races are recorded in the evidence but only panics/wrong outcomes fail this property",
 		},
 		Run: run,
@@ -107,7 +115,10 @@ func run(e *vlib.Env) vlib.Result {
 	if j -= rejectedN(e.Tier); j < retryN(e.Tier) {
 		return retry(e, j)
 	}
-	return closeto(e, j-retryN(e.Tier))
+	if j -= retryN(e.Tier); j < closetoN(e.Tier) {
+		return closeto(e, j)
+	}
+	return ownctx(e, j-closetoN(e.Tier))
 }
 
 type hrec struct {
